@@ -394,6 +394,15 @@ def gen_case(rng, alphas=ALPHAS):
         vals = rng.sample(range(ncodes), len(events) - 1)
         k = rng.randrange(1, len(events) - 1)
         directed = [('add', events[k], vals[k - 1]), ('rr',)]
+    if directed is None and N >= 5 and len(events) >= 3 and rng.random() < 0.08 and alpha not in FLOATS:
+        # the first value is removed (the series then starts after dump 0) and add_unmatched is given segment starts
+        # before the range followed by unmatched ones inside it: the former are ignored, the latter added
+        first_val = vals[0]
+        vals = [first_val] + [v if v != first_val else rng.choice([c for c in codes if c != first_val] or [first_val])
+                              for v in vals[1:]]
+        if all(v != first_val for v in vals[1:]):
+            inner = sorted(rng.sample(range(1, N), min(N - 1, rng.randint(2, 4))))
+            directed = [('remove', first_val), ('addun', [0] + inner + [N], rng.choice([0, 0, 1]))]
     case = dict(kind='seq', alpha=alpha, vals=vals, events=events, ops=[],
                 arr=[rng.random() < 0.5 for _ in range(5)])
     try:
